@@ -100,7 +100,7 @@ func c10Run(sc c10Scenario, prefix []int, sigs []string) (*vsched.Sched, schedVe
 		if strings.HasPrefix(t, "hbfail") {
 			hb = true
 		}
-		if strings.HasPrefix(t, "readtimeout") {
+		if strings.HasPrefix(t, "readtimeout") || strings.HasPrefix(t, "peergone") {
 			rt = 15 * time.Second
 		}
 	}
@@ -167,6 +167,15 @@ func c10Run(sc c10Scenario, prefix []int, sigs []string) (*vsched.Sched, schedVe
 				stray.Send(c10N4+":8805", (&sReq{Kind: kRel, Seq: 50}).build(strayConn).marshal())
 			case "readtimeout":
 				horizon = 40 * time.Second
+			case "peergone":
+				// the peer closes its socket (its port answers with ICMP port unreachable), the agent still sends something to
+				// it - the answer to the Heartbeat Request it sent last - and then hears nothing: the read time-out must still end
+				// the association
+				// (every "timer lands first" deviation may stretch the time line by one read time-out: the ICMP report is then
+				// consumed at the deadline and the time-out starts again)
+				horizon = 120 * time.Second
+				w.peers[idx].Send(c10N4+":8805", (&sReq{Kind: kHB, Seq: 71}).build(conns[idx]).marshal())
+				w.peers[idx].PortClosed = true
 			case "hbfail":
 				if horizon < 30*time.Second {
 					horizon = 30 * time.Second
@@ -228,6 +237,7 @@ func c10Run(sc c10Scenario, prefix []int, sigs []string) (*vsched.Sched, schedVe
 		}
 		if sc.Reassoc && sc.NAssoc > 0 && !stopAsked {
 			reassocTried = true
+			w.peers[0].PortClosed = false // the reborn peer listens again
 			n0 := len(w.peers[0].Inbox)
 			// from here on the clock advances only when no thread can run: a schedule in which the requester of a heartbeat
 			// is starved past two response time-outs while the answer sits in the reader's hands makes the agent declare
@@ -448,6 +458,9 @@ func c10Scenarios() []c10Scenario {
 	add(0, 0, false, false, "strayrelease")
 	add(0, 0, false, false, "strayrelease", "stop")
 	add(1, 1, false, false, "strayrelease", "stop")
+	// the peer's port is closed while the agent still sends to it (ICMP errors on the connected socket), then silence
+	add(1, 1, false, true, "peergone@0")
+	add(2, 1, false, true, "peergone@0")
 	// a Heartbeat Request of the peer handled while its association is being torn down
 	for _, trig := range [][]string{{"stop"}, {"hbfail@0"}, {"release@0"}, {"readtimeout@0"}} {
 		add(1, 1, false, false, trig...)
